@@ -47,7 +47,7 @@ NoPrev == [grp |-> "", pair |-> "", issues |-> <<>>, dest |-> <<>>, nilres |-> T
 TraceInit ==
   /\ TLCSet(1, <<>>)
   /\ l = 1 /\ phase = "idle" /\ call = [id |-> ""] /\ locked = TRUE /\ prev = NoPrev
-  /\ case = [id |-> "", mode |-> "parse", fe |-> "map"] /\ stack = <<>> /\ ctxs = <<>> /\ issues = <<>>
+  /\ case = [id |-> "", mode |-> "parse", fe |-> "map", pre |-> 0] /\ stack = <<>> /\ ctxs = <<>> /\ issues = <<>>
   /\ dest = EmptyF /\ ev = NoEv /\ done = TRUE
 
 \* ---- a new trace begins ---------------------------------------------------
